@@ -4,5 +4,5 @@ From FB Require Import Sem.Base Sem.ReadBuf Model.Fb Model.Tokio GenEq.Tac.
 From FB Require Gen.TokioGen.
 Open Scope Z_scope.
 
-Lemma gen_eq : forall s, TokioGen.afb_poll_shutdown s = Tokio.afb_poll_shutdown s.
+Lemma gen_eq : forall chk s, TokioGen.afb_poll_shutdown chk s = Tokio.afb_poll_shutdown s.
 Proof. gen_eq. Qed.
